@@ -74,6 +74,9 @@ func VerifC18_RolloutTerminating() {
 	r := vCanaryRollout(1, 1)
 	now := metav1.Now()
 	r.DeletionTimestamp = &now
+	// disabled and deleted back to back (or deleted while still Disabling): what the spec asks for says nothing about
+	// what has been cleaned up
+	r.Spec.Disabled = verifrt.Bool("spec.disabled")
 	r.Status.Conditions = append(r.Status.Conditions, v1beta1.RolloutCondition{Type: v1beta1.RolloutConditionTerminating, Status: corev1.ConditionTrue, Reason: v1alpha1.TerminatingReasonInTerminating})
 	cli := &symclient.Client{}
 	rec := c10Reconciler(cli)
